@@ -222,7 +222,7 @@ ASSUME = ['MySQL/Postgres/Oracle regex engines and collations, real MongoDB quer
 
 def main(argv):
     return run_check('C07', [BackendDecisionStream()], argv, trusted_base=TRUSTED, assumptions=ASSUME,
-                     translated=('sql', 'sqlmodel', 'storage_abc', 'enfold', 'redis', 'mongo', 'memory', 'guard', 'checker', 'parser', 'pin_sql', 'pin_mongo', 'pin_redis', 'pin_rules', 'pin_util'))
+                     translated=('sql', 'sqlmodel', 'storage_abc', 'enfold', 'redis', 'mongo', 'memory', 'observable', 'subject', 'guard', 'checker', 'parser', 'pin_sql', 'pin_mongo', 'pin_redis', 'pin_rules', 'pin_util'))
 
 
 if __name__ == '__main__':
